@@ -60,6 +60,7 @@ type FnCtx struct {
 	notes  []string
 	unknownCallees map[string]bool
 	lemmaBeingProved string
+	loopAny bool
 	retVals []retInfo // for inlining
 	inline bool
 	frameParent *FnCtx
@@ -253,6 +254,16 @@ func (fc *FnCtx) mergeStates(es []inEdge) *State {
 		return fc.out[es[0].pred].clone()
 	}
 	st := &State{Heap: map[string]Term{}, Gh: map[string]Term{}}
+	// regions not mentioned yet: if the predecessors disagree on the last whole-heap havoc
+	// they passed, such a region is unknown in the merged state (fresh epoch)
+	st.Epoch = fc.out[es[0].pred].Epoch
+	for _, e := range es[1:] {
+		if fc.out[e.pred].Epoch != st.Epoch {
+			fc.vc.nextEpoch++
+			st.Epoch = fc.vc.nextEpoch
+			break
+		}
+	}
 	keys := map[string]bool{}
 	gkeys := map[string]bool{}
 	for _, e := range es {
